@@ -25,6 +25,7 @@ EXPLANATION = (
     "trailing semicolons and comment-only pieces are dropped by the two stated reasons only (= R05.2). R07.5 SQL text that is analysed afterwards is never re-flowed (no whitespace collapsing: a newline ends a line comment). Does not decide: quoting rules "
     "(C16), what the two lexers do with whitespace."
     ' R07.8 no source position (line, column, offset) enters the analysis; R07.9 (= R08.2) names looked up among CTE aliases are normalised first. R07.2 follows text through case-keeping string operations and locals (raw_normalized() keeps the case).'
+    ' R07.12 (= R16.10) a name is looked up among names of its own spelling state (raw text is never searched among normalised names).'
 )
 RULE_TEXT = "one obligation per positional consumer on segment/token sequences, per flag loop, per keyword comparison"
 
